@@ -29,12 +29,12 @@
                                  element — after elements of any shape — is again in S2 (any depth).
      C07rej_system_lists_partial : the same in terms of [sdecode]: sdecode bytes = None, not VOut => ends in error.
      C07rej_all_partial / C07rej_system_partial (HEADLINE) : class S3 = [cov_all], see below: all depths of lists,
-                             s-expressions and structs, every failure point of the decoder except exclusions 1 and 3.
+                             s-expressions and structs, every failure point of the decoder except exclusions 1, 2 and 3.
    MISSING for the full statement = the named exclusions of [cov_code] (Bin/Reject.v): (1) a top-level container or wrapper
-   longer than the input, (3) annotation wrappers the decoder rejects (with (2), malformed local symbol tables, known
-   finding C07, among them).
-   On every single-octet edit, truncation and deletion of three documents (33 540 edited strings, 23 159 of them rejected by the
-   restricted decoder: 15 139 judged VRej under S3, the others under exclusions 1 (1 704) and 3 (6 325) and G7 (1);
+   longer than the input, (3) an annotation wrapper whose annotated value is itself rejected, (2) malformed local symbol
+   tables (known finding C07).
+   On every single-octet edit, truncation and deletion of three documents (33 540 edited strings, 23 169 of them rejected by the
+   restricted decoder: 18 940 judged VRej under S3, the others under exclusions 1 (1 704) and 3 (2 524) and G7 (1);
    Bin/RejTest.v — not part of the build — also checks that VRej/VOut and the exclusion codes agree) the full statement "sdecode_lim rejects => the model's traversal ends in error" has no counterexample
    except $ion_symbol_table::null.struct (guard G7 of C03, accepted by [sdecode]).
    REFUTED unrestricted statements (the named exclusions): see the end of the file.
@@ -86,15 +86,19 @@ Theorem C07rej_system_lists_partial_default : forall bytes,
 Proof. exact (fun bytes => reject_sdecode_deep ts_ok_default bytes ts_ok_default_total). Qed.
 
 (* ---- class S3 = [cov_all] (Bin/Reject.v, [cov_code] = 0): EVERY point at which the restricted decoder gives up on an item,
-   at any depth of lists, s-expressions and structs, except the named exclusions 1 and 3 of [cov_code]:
+   at any depth of lists, s-expressions and structs, except the named exclusions 1, 2 and 3 of [cov_code]:
      covered: illegal tag octets; malformed VarUInt length fields (no stop bit, more than 10 octets, 2^64 or more) of any
      item; an ordered struct of length 0; a length that overruns the enclosing container (any item, any depth); a top-level
      scalar or NOP pad longer than the input; every scalar body the decoder rejects, decimals included (malformed or
      out-of-int32 exponent VarInt); tag 0xE0 inside a container or, at top level, not starting a version marker; lists / s-expressions / structs (inline, VarUInt and ordered headers) whose first rejected element or
      field is again covered; in a struct: a malformed field-name VarUInt, an undefined field ID, a field name that is not
      followed by a value.
-     excluded (named): 1 top-level container / wrapper longer than the input; 3 annotation wrappers the decoder rejects
-     (length field and body present) — this subsumes 2, a malformed local symbol table (known finding C07). *)
+     annotation wrappers (inline or VarUInt length, body present, any depth): length < 3, an empty wrapper, a malformed / zero
+     / overrunning annot_length, a malformed or undefined annotation ID, no annotated value, a wrapper around a wrapper
+     (tag E0..EE) or around a NOP pad, an annotated value that does not fill the wrapper.
+     excluded (named): 1 top-level container / wrapper longer than the input; 2 a top-level $ion_symbol_table:: wrapper
+     around a struct that the decoder rejects at or after the struct's header (malformed local symbol table, known
+     finding C07); 3 a wrapper whose annotations are fine and whose annotated value is itself rejected (incl. 0xEF). *)
 Theorem C07rej_all_partial : forall ts bytes,
   (forall bs, ts bs <> Panic /\ ts bs <> OutOfFuel) -> sjudge ts (cov_all ts) bytes = VRej ->
   Forall (fun c => c < 256) bytes -> N.of_nat (length bytes) < two63 ->
@@ -124,12 +128,22 @@ Example C07rej_ex4 :
       [224; 1; 0; 234; 34; 7]; [224; 1; 0; 234; 198; 213; 132; 211; 133; 49; 0] ]
   = [VRej; VRej; VRej; VRej; VRej; VRej; VRej; VRej].
 Proof. vm_compute; reflexivity. Qed.
-(* the named exclusions are VOut: a top-level list longer than the input (1), a wrapper with annot_length 0 (3); a stray
-   top-level 0xE0 and a decimal with a truncated exponent are VRej (the former exclusions 4 and 5 are proved) *)
+(* annotation wrappers, VRej: annot_length 0; annot_length overrunning; an undefined annotation ID ($10); a wrapper around a
+   wrapper; around a NOP pad; a value that does not fill the wrapper; a wrapper of length 2; an empty wrapper (EE 80);
+   a wrapper of length 3 inside a list whose annot_length VarUInt never stops *)
+Example C07rej_ex6 :
+  map (sjudge ts_ok_default (cov_all ts_ok_default))
+    [ [224; 1; 0; 234; 227; 128; 132; 17]; [224; 1; 0; 234; 227; 133; 132; 17]; [224; 1; 0; 234; 227; 129; 138; 17];
+      [224; 1; 0; 234; 228; 129; 132; 225; 17]; [224; 1; 0; 234; 227; 129; 132; 0]; [224; 1; 0; 234; 228; 129; 132; 17; 17];
+      [224; 1; 0; 234; 226; 129; 132]; [224; 1; 0; 234; 238; 128]; [224; 1; 0; 234; 180; 227; 1; 2; 3] ]
+  = [VRej; VRej; VRej; VRej; VRej; VRej; VRej; VRej; VRej].
+Proof. vm_compute; reflexivity. Qed.
+(* the named exclusions are VOut: a top-level list longer than the input (1); a wrapper whose annotated value is itself
+   rejected: -0, and the illegal tag 0xEF (3) *)
 Example C07rej_ex5 :
   map (sjudge ts_ok_default (cov_all ts_ok_default))
-    [ [224; 1; 0; 234; 179; 17]; [224; 1; 0; 234; 227; 128; 132; 17]; [224; 1; 0; 234; 224; 1; 0; 235]; [224; 1; 0; 234; 81; 0] ]
-  = [VOut; VOut; VRej; VRej].
+    [ [224; 1; 0; 234; 179; 17]; [224; 1; 0; 234; 228; 129; 132; 49; 0]; [224; 1; 0; 234; 227; 129; 132; 239] ]
+  = [VOut; VOut; VOut].
 Proof. vm_compute; reflexivity. Qed.
 
 (* the hypotheses are satisfiable by non-trivial streams: a local symbol table declaring "a", the symbol $10, a struct, a
